@@ -31,9 +31,11 @@ def evaluate(bins, chk, i, source, opts, keep=False):
     return res
 
 
-def run_prop(prop, tier, n_quick, n_thorough, opt_choices, stat_keys, nontrivial_key, rule, extra_sources=None, post=None, fams=None, must_compile=True):
+def run_prop(prop, tier, n_quick, n_thorough, opt_choices, stat_keys, nontrivial_key, rule, extra_sources=None, post=None, fams=None, must_compile=True, pre=None):
     chk = Check(prop, tier)
-    bins = common.build("rel", ("fontc", "voracle"))
+    bins = common.build("rel", ("fontc", "voracle") + (("vapi",) if pre else ()))
+    if pre:
+        pre(chk, bins, tier)
     n = n_quick if tier == "quick" else n_thorough
     srcs = gensrc.sources_for(prop, chk, n, fams=fams, post=post)
     rng = chk.rng
